@@ -164,6 +164,7 @@ USN_VALUES = ["uuid:", "UUID:Dev-9::x", "nouuid", "", "uuid:dev-1", "uuid:dev-1:
 
 class Plugin:
     ID = "C02"
+    HEADER = H.Tokens.HEADER
     RUN_MODULE = "C02.Run"
     GEN = ["Ssdp", "SsdpRecv", "Types", "DateMatchers"]
     DEPENDS = ["C16", "C03", "C01", "C08"]
@@ -372,7 +373,7 @@ class Plugin:
         dev = (f"{{| sd_udn := {tok.s(DEV_UDN.lower())}; sd_device_type := {tok.s(DEV_TYPE.lower())}; "
                f"sd_service_types := {C.c_list((tok.s(s.lower()) for s in SVC_TYPES), 'pystr')} |}}")
         body = f"(({urls}, {ipv}, {dev}, {C.c_list(steps, 'dstep')}) : input, {C.c_list(sobs, 'sobs')} : observation)"
-        return f"({tok.lets()}{body})"
+        return "(" + tok.wrap(body) + ")"
 
     # ------------------------------------------------------------------ evidence helpers
     def nontrivial(self, case, obs):
